@@ -69,6 +69,7 @@ std::string dqOne(const std::string& script, const std::string& hooks) {
 			std::vector<std::string> f = uv::split(op, ':');
 			if (f[0] == "send" && f.size() == 3) {
 				Event e(f[1], Event::EXTERNAL);
+				logLine("send-call", f[1].c_str());      // a lower bound of the time the timer is armed
 				q.enqueueDelayed(e, (size_t)atoi(f[2].c_str()), f[1]);
 			} else if (f[0] == "cancel" && f.size() == 2) {
 				logLine("cancel-call", f[1].c_str());
